@@ -278,6 +278,7 @@ func (in *Interp) resetPath() {
 	in.tseq = 0
 	in.quiesce = nil
 	in.guard = nil
+	in.facts = newFacts()
 }
 
 func (in *Interp) addPC(c *Term) {
@@ -286,6 +287,7 @@ func (in *Interp) addPC(c *Term) {
 	}
 	in.pc = in.tb.And(in.pc, c)
 	in.pcList = append(in.pcList, c)
+	in.facts.record(c, true)
 }
 
 // query runs a satisfiability check of pc-list plus extra, with fallbacks.
@@ -360,6 +362,10 @@ func (in *Interp) feasible(c *Term) bool {
 	if c.IsFalse() {
 		return false
 	}
+	if q := in.facts.eval(c); q != 0 {
+		in.factHits++
+		return q == 1
+	}
 	// model cache: a recent model of the pc that also satisfies c
 	for i := len(in.lastModels) - 1; i >= 0; i-- {
 		m := in.lastModels[i]
@@ -372,6 +378,13 @@ func (in *Interp) feasible(c *Term) bool {
 		}
 	}
 	r, _ := in.query([]*Term{in.pc, c}, in.nondets)
+	if forkDebug && r == Unsat {
+		s := c.String()
+		if len(s) > 300 {
+			s = s[:300]
+		}
+		fmt.Fprintf(os.Stderr, "UNSAT %s :: %s\n", in.curPos(in.cur), s)
+	}
 	if r == Unknown {
 		panic(pathEnd{"unknown", "solver returned unknown on a feasibility query at " + in.curPos(in.cur)})
 	}
@@ -382,6 +395,11 @@ func (in *Interp) feasible(c *Term) bool {
 func (in *Interp) decide(c *Term) bool {
 	if c.IsConst() {
 		return c.Val == 1
+	}
+	if q := in.facts.eval(c); q != 0 {
+		// implied by the path condition: no decision, no solver call
+		in.factHits++
+		return q == 1
 	}
 	if in.guard != nil {
 		panic(ifconvAbort{})
